@@ -162,6 +162,14 @@ def main():
         oc = meta.ops[opname]["opcode"]
         cases.append(dict(op=opname, chip_row=16, op_row=40, next_consts={DEC: 17}, chip=block_chip(0 if opname == "Span" else oc),
                           what="hasher row starting the block's hash (BP)", match=block_match(0 if opname == "Span" else oc)))
+    # SYSCALL <-> the hasher row starting the block hash AND the kernel ROM row of the called procedure (selector s4 = 1; the
+    # following kernel ROM row belongs to the same procedure, so the procedure-table factor of that row is 1)
+    KA, KR = ch + 5, ch + 6
+    ksel = {ch: 1, ch + 1: 1, ch + 2: 1, ch + 3: 0, ch + 4: 1}
+    cases.append(dict(op="SysCall", chip_row=16, op_row=40, next_consts={DEC: 17}, chip=block_chip(meta.ops["SysCall"]["opcode"]),
+                      second_row=30, extra={30: ("u", ksel), 31: ("w", {})}, what="hasher row starting the block hash and the kernel ROM row of the procedure",
+                      match=block_match(0), match2=lambda cur, nxt, u: [(u(KR + i), cur(DH + i)) for i in range(4)],
+                      match3=lambda ctx: [(ctx.var(f"w{KA}"), ctx.var(f"u{KA}"))]))
     # END <-> hasher row returning the block's hash (HOUT selectors, last row of the cycle that started at address 17)
     cases.append(dict(op="End", chip_row=23, op_row=40, cur_consts={DEC: 17}, chip={ch: 0, HS: 0, HS + 1: 0, HS + 2: 0},
                       what="hasher row returning the block hash (HOUT)",
@@ -295,6 +303,8 @@ def main():
             if "match2" in case:
                 u = lambda col: ctx.var(f"u{col}")  # noqa: E731
                 rel += [ctx.eq(a, b) for a, b in case["match2"](cur, nxt, u)]
+            if "match3" in case:
+                rel += [ctx.eq(a, b) for a, b in case["match3"](ctx)]
             if case.get("expect_one"):
                 goal, label = ctx.eq(rsp, Lin({}, 1)), "a row inside a bitwise cycle responds with 1"
             elif case.get("expect_diff"):
@@ -353,6 +363,7 @@ BUS_PROGRAMS = {
     "RCombBase": "begin push.5.6.7.8 mem_storew.10 dropw push.4.3.0.0 mem_storew.20 dropw push.0.20.10.0 padw padw padw rcomb_base dropw dropw dropw dropw end",
     "MStream": "begin push.1.2.3.4 mem_storew.0 dropw padw padw padw mem_stream dropw dropw dropw end",
     "Pipe": ("begin padw padw padw adv_pipe dropw dropw dropw end", [1, 2, 3, 4, 5, 6, 7, 8]),
+    "SysCall": "begin push.1 drop end",
     "Loop": "begin push.1 while.true push.0 end end", "Call": "proc.f push.1 drop end begin call.f end", "Dyn": "begin push.1 drop end",
 }
 # further programs per operation: reads of addresses never written before (first access), several batches
